@@ -90,6 +90,8 @@ structure Facts where
   deleteOrder : List String
   /-- kv/crypto.go: `deriveKey`, `V1NodeEncryptor`, `jencryptor.Encrypt/Decrypt` are the known pure functions -/
   deriveKeyAsExpected : Bool
+  /-- `persistEncryptor.Load` refuses content that does not hash to the object's name -/
+  nodeContentChecked : Bool
   /-- `DeleteHistoricVersions` first removes the historic versions still listed under root/current/ -/
   vacuumFinishesRetire : Bool
   /-- the keep pass also walks every version listed under root/current/ that is not in the graph -/
@@ -98,6 +100,10 @@ structure Facts where
   vacuumWalksBypassCache : Bool
   /-- a version's creation time is set when it is committed -/
   versionsDatedAtCommit : Bool
+  /-- a version created at or after the cutoff is never a candidate, whatever its successors' times -/
+  vacuumChecksOwnAge : Bool
+  /-- listed versions that cannot be read (left by an interrupted vacuum) are skipped by the keep pass -/
+  vacuumSkipsUnreadableListed : Bool
   /-- `Vacuum` replaces an open transaction's snapshot by the vacuumed tree -/
   vacuumRepointsSnapshot : Bool
   /-- `RemoveTombstones` clamps the cutoff to what int64 nanoseconds can express -/
